@@ -259,10 +259,10 @@ class C02(fw.Prop):
             return bytes(rng.getrandbits(8) for _ in range(n)).hex()
 
         def ireq(key_len=0):
-            return dict(k="ireq", key=rb(key_len), ra=1, qos=0, ver=6, conf=rng.getrandbits(17), maxpdu=rng.choice([1200, 65535]))
+            return dict(k="ireq", key=rb(key_len), ra=1, qos=0, ver=6, conf=rng.getrandbits(17), maxpdu=rng.choice([0, 1, 12, 255, 256, 1200, 65534, 65535]))
 
         def ires():
-            return dict(k="ires", qos=0, ver=6, conf=rng.getrandbits(17), maxpdu=500)
+            return dict(k="ires", qos=0, ver=6, conf=rng.getrandbits(17), maxpdu=rng.choice([0, 1, 12, 500, 65535]))
 
         SCS = [0x30, 0x30, 0x31, 0x32, 0x70, 0xB0, 0xF0, 0x10, 0x20, 0x72, 0xB1]      # (key-set and compression bits alone and together)
 
